@@ -70,14 +70,26 @@ class Conn:
         self.steps = [(new_op, new_out)]
         self.comments = []   # (index into steps at which the comment was emitted, text)
         self.first_line = 0
+        self.differs = False
 
     def add(self, op, out):
         self.steps.append((op, out))
 
 
-def split_conns(ops, impl):
+def same_line(o, a, b):
+    """the comparison rule of srv_compare for one line"""
+    if b in ("undef", "mon"):
+        return True
+    if o.startswith("srv") and " bytes " in o and a.startswith("out ") and b.startswith("out "):
+        return sorted(a[4:].split(" | ")) == sorted(b[4:].split(" | "))
+    return a == b
+
+
+def split_conns(ops, impl, model=None):
     conns, cur = [], None
     for i, (o, a) in enumerate(zip(ops, impl)):
+        if model is not None and cur is not None and not o.startswith("#") and not same_line(o, a, model[i]):
+            cur.differs = True   # the implementation does not behave as the model (which has the listed defects) predicts
         if o.startswith("#"):
             if cur is not None:
                 cur.comments.append((len(cur.steps), o))
@@ -145,7 +157,9 @@ def body_of(sid, spec):
 # ---------------------------------------------------------------- violations helper
 def viol(ctx, conn, kind, detail, known_class=None):
     """record a violation unless it is in a listed known-finding class whose recorded witness still fails"""
-    if known_class:
+    # A listed finding is a defect the model reproduces (its `_witness` theorem). On a connection where the
+    # implementation does NOT behave as the model predicts, something else is going on: nothing is suppressed there.
+    if known_class and not getattr(conn, "differs", False):
         for k in ctx.known:
             if k["cls"] == known_class and (getattr(ctx, "witness_mode", False) or k["id"] in getattr(ctx, "active_known", ())):
                 ctx.known_hits[k["id"]] += 1
@@ -529,6 +543,9 @@ def mon_no_panic_returns(ctx, conn):
             viol(ctx, conn, "server-panicked", dict(op=op[:200]))
         if "stuck" in items:
             viol(ctx, conn, "server-stuck", dict(op=op[:200]))
+        if f[2] == "stallcut" and ("served=false" in out or "looped=false" in out):
+            # a peer that stopped reading, went on sending and then disconnected
+            viol(ctx, conn, "serveconn-did-not-return-after-stalled-peer-left", dict(out=out))
         if f[2] == "end" and out != "ok returned":
             viol(ctx, conn, "serveconn-did-not-return", dict(out=out))
         if f[2] == "cut" and "returned" not in items and not out.startswith("out gone") and out != "out -":
@@ -725,7 +742,7 @@ def run_family(ctx, areas, monitors, rule):
     for area in areas:
         ops, impl, model = ctx.gen_run_compare(ctx.pid, area, ctx.tier, ctx.seed, ctx.log)
         cov, diffs = srv_compare(ctx, area, ops, impl, model)
-        conns = split_conns(ops, impl)
+        conns = split_conns(ops, impl, model)
         nconn += len(conns)
         for c in conns:
             for m in monitors:
